@@ -263,6 +263,100 @@ theorem C06_accepted_counters_strictly_increase (w : World) (ops : List Op) :
 theorem C06_no_ciphertext_accepted_twice (w : World) (ops : List Op) : (devAccepted w ops).Nodup :=
   (C06_accepted_counters_strictly_increase w ops).imp (fun h => Nat.ne_of_lt h)
 
+/-! the same for the reader and the device-to-reader direction -/
+
+def rdrAcceptedCtr (r : Reader) : Msg → Option Nat
+  | .ct fr s n p t => match (r.handleResponse (.ct fr s n p t)).2 with
+    | .accepted _ => some n
+    | _ => none
+  | _ => none
+
+def rdrAccepted (w : World) : List Op → List Nat
+  | [] => []
+  | .handleResponse m :: ops => (rdrAcceptedCtr w.rdr m).toList ++ rdrAccepted (w.step (.handleResponse m)) ops
+  | op :: ops => rdrAccepted (w.step op) ops
+
+theorem rdrAcceptedCtr_some (r : Reader) (m : Msg) (n : Nat) (h : rdrAcceptedCtr r m = some n) :
+    n = r.decCtr.toNat + 1 ∧ (r.handleResponse m).1.decCtr.toNat = n := by
+  cases m with
+  | garbage => simp [rdrAcceptedCtr] at h
+  | noData => simp [rdrAcceptedCtr] at h
+  | ct fr s k p t =>
+    cases hm : atMax r.decCtr
+    · cases hacc : accepts false r.sess (bump r.decCtr) fr s k t
+      · simp [rdrAcceptedCtr, handleResponse_rej r fr s k p t hm hacc] at h
+      · have hb := bump_toNat _ (not_atMax _ hm)
+        have hk := ((accepts_iff false r.sess (bump r.decCtr) fr s k t).mp hacc).2.2.1
+        simp only [rdrAcceptedCtr, handleResponse_acc r fr s k p t hm hacc, Option.some.injEq] at h
+        subst h
+        refine ⟨by omega, ?_⟩
+        simp only [Reader.handleResponse, hm, Bool.false_eq_true, if_false, hk]
+        split <;> rfl
+    · simp [rdrAcceptedCtr, handleResponse_exhausted r fr s k p t hm] at h
+
+theorem handleResponse_decCtr_mono (r : Reader) (m : Msg) :
+    r.decCtr.toNat ≤ (r.handleResponse m).1.decCtr.toNat := by
+  cases m with
+  | garbage => exact Nat.le_refl _
+  | noData => exact Nat.le_refl _
+  | ct fr s k p t =>
+    cases hm : atMax r.decCtr
+    · have hb := bump_toNat _ (not_atMax _ hm)
+      cases hacc : accepts false r.sess (bump r.decCtr) fr s k t <;>
+        simp [Reader.handleResponse, hm, hacc, hb]
+    · rw [handleResponse_exhausted r fr s k p t hm]; exact Nat.le_refl _
+
+theorem step_rdr_decCtr_mono (w : World) (op : Op) : w.rdr.decCtr.toNat ≤ (w.step op).rdr.decCtr.toNat := by
+  cases op with
+  | newRequest =>
+    simp only [World.step, Reader.newRequest]
+    split <;> rename_i h <;> split at h <;> simp at h <;> (try obtain ⟨h1, _⟩ := h; try subst h1) <;> simp
+  | handleRequest m => simp only [World.step, World.withDev]; split <;> exact Nat.le_refl _
+  | prepare docs => simp only [World.step, World.withDev]; split <;> exact Nat.le_refl _
+  | getNext => exact Nat.le_refl _
+  | submit sig => simp only [World.step, World.withDev]; split <;> exact Nat.le_refl _
+  | responseReady => exact Nat.le_refl _
+  | retrieve => exact Nat.le_refl _
+  | handleResponse m => exact handleResponse_decCtr_mono w.rdr m
+  | restoreDevice => rw [step_restoreDevice]; exact Nat.le_refl _
+  | restoreReader => rw [step_restoreReader]; exact Nat.le_refl _
+
+theorem rdrAccepted_gt (w : World) (ops : List Op) : ∀ n ∈ rdrAccepted w ops, w.rdr.decCtr.toNat < n := by
+  induction ops generalizing w with
+  | nil => intro n h; cases h
+  | cons op ops ih =>
+    intro n hn
+    have hmono := step_rdr_decCtr_mono w op
+    cases op with
+    | handleResponse m =>
+      simp only [rdrAccepted, List.mem_append, Option.mem_toList] at hn
+      rcases hn with h | h
+      · have := (rdrAcceptedCtr_some w.rdr m n h).1; omega
+      · have := ih _ n h; omega
+    | _ => (simp only [rdrAccepted] at hn; have := ih _ n hn; omega)
+
+theorem C06_reader_accepted_counters_strictly_increase (w : World) (ops : List Op) :
+    (rdrAccepted w ops).Pairwise (· < ·) := by
+  induction ops generalizing w with
+  | nil => exact List.Pairwise.nil
+  | cons op ops ih =>
+    cases op with
+    | handleResponse m =>
+      simp only [rdrAccepted]
+      cases h : rdrAcceptedCtr w.rdr m with
+      | none => simpa using ih _
+      | some n =>
+        simp only [Option.toList_some, List.singleton_append, List.pairwise_cons]
+        refine ⟨fun k hk => ?_, ih _⟩
+        have h1 := rdrAccepted_gt _ ops k hk
+        have h2 := (rdrAcceptedCtr_some w.rdr m n h).2
+        simp only [World.step] at h1
+        omega
+    | _ => (simp only [rdrAccepted]; exact ih _)
+
+theorem C06_reader_no_ciphertext_accepted_twice (w : World) (ops : List Op) : (rdrAccepted w ops).Nodup :=
+  (C06_reader_accepted_counters_strictly_increase w ops).imp (fun h => Nat.ne_of_lt h)
+
 /-- non-vacuity: an honest exchange is accepted; the same ciphertext replayed, a modified one,
 one from another session and a reflected one are all rejected and leave the state alone. -/
 example :
